@@ -70,7 +70,9 @@ func (k Keeper) DistributeReward(ctx context.Context) error {
 	sdkctx := sdktypes.UnwrapSDKContext(ctx)
 
 	// the cometbft consensus rule
-	if sdkctx.BlockHeight() < 2 {
+	// the first block of a chain doesn't have the last commit,
+	// it's not only the block 1 if the chain starts with an exported state
+	if sdkctx.BlockHeight() < 2 || len(sdkctx.VoteInfos()) == 0 {
 		return nil
 	}
 
